@@ -552,6 +552,9 @@ class ConformationContainer:
         new_atom = atom.make_copy()
         self.atoms.append(new_atom)
         new_atom.conformation_container = self
+        # store chain id for bookkeeping (as add_atom does)
+        if new_atom.chain_id not in self.chains:
+            self.chains.append(new_atom.chain_id)
 
     def get_non_hydrogen_atoms(self):
         """Get atoms that are not hydrogens.
